@@ -10,7 +10,8 @@ early `return`s and the propagating exceptions that skip `mypy_timing_stats.unli
 Part B — `timingJson`: the JSON text `output_timing_stats` writes, from the text of mypy's timing
 file (`module microseconds` lines), the total time and the sequence of assignments
 `refurb_timing_stats_in_ms[file.module] = ms` made by the visiting loop.  Python semantics that are
-modelled: `str.splitlines`, `str.split()`, `int(str)` (sign, single underscores, every Unicode
+modelled: `str.splitlines`, `str.split()` and `str.rsplit(maxsplit=1)` (which of the two the loop uses
+is read off the working tree: `Generated.timingRsplit`), `int(str)` (sign, single underscores, every Unicode
 decimal digit, the 4300-digit limit), `dict[k] = v` (later value wins, position of the first
 insertion is kept), floor division, `sorted(..., key=itemgetter(1), reverse=True)` (stable),
 `json.dumps(..., separators=(",", ":"))` with `ensure_ascii`.
@@ -255,7 +256,7 @@ def parsePyInt (s : Str) : Option Int :=
   | some (v, n) => if n ≤ maxStrDigits then some (if neg then -(v : Int) else (v : Int)) else Option.none
   | Option.none => Option.none
 
-/-- one iteration of the loop: `module, micro_seconds = line.split()` and
+/-- one iteration of the loop as it was up to refurb 2.0.0: `module, micro_seconds = line.split()` and
     `int(micro_seconds) // 1_000` (floor division) -/
 def parseLine (line : Str) : Except TErr (Str × Int) :=
   match pySplit line with
@@ -265,14 +266,43 @@ def parseLine (line : Str) : Except TErr (Str × Int) :=
     | Option.none => .error .valueError
   | _ => .error .valueError
 
+def notPySpace (c : Char) : Bool := !isPySpace c
+
+/-- `str.rsplit(maxsplit=1)` with `sep=None` (CPython `rsplit_whitespace`), on the reversed text: trailing
+    whitespace is skipped; the last maximal run of non-whitespace is the last field; what is left of it,
+    with ITS trailing whitespace skipped, is the first field as it stands (leading and inner whitespace
+    kept) — unless nothing is left, then the list has one element; a blank line gives `[]` -/
+def pyRsplit1 (s : Str) : List Str :=
+  match s.reverse.dropWhile isPySpace with
+  | [] => []
+  | c :: r =>
+    let last := ((c :: r).takeWhile notPySpace).reverse
+    match (((c :: r).dropWhile notPySpace).dropWhile isPySpace).reverse with
+    | [] => [last]
+    | rest => [rest, last]
+
+/-- one iteration of the loop as it is now: `module, micro_seconds = line.rsplit(maxsplit=1)` (a module
+    name can contain spaces) and `int(micro_seconds) // 1_000` -/
+def parseLineR (line : Str) : Except TErr (Str × Int) :=
+  match pyRsplit1 line with
+  | [m, us] =>
+    match parsePyInt us with
+    | some v => .ok (m, v / 1000)
+    | Option.none => .error .valueError
+  | _ => .error .valueError
+
+/-- the iteration for either shape of the code (`rs` = the line is cut with `rsplit(maxsplit=1)`) -/
+def parseLineOf (rs : Bool) (line : Str) : Except TErr (Str × Int) :=
+  if rs then parseLineR line else parseLine line
+
 /-- the loop over all lines: the sequence of assignments `mypy_stats[module] = ms` -/
-def parseLines : List Str → Except TErr (List (Str × Int))
+def parseLines (rs : Bool) : List Str → Except TErr (List (Str × Int))
   | [] => .ok []
   | l :: ls =>
-    match parseLine l with
+    match parseLineOf rs l with
     | .error e => .error e
     | .ok kv =>
-      match parseLines ls with
+      match parseLines rs ls with
       | .error e => .error e
       | .ok kvs => .ok (kv :: kvs)
 
@@ -299,9 +329,10 @@ structure Stats where
   deriving DecidableEq, Repr
 
 /-- the `data` dict of `output_timing_stats`.  `content` = text of mypy's timing file, `totalMs` =
-    `int(mypy_total_time_spent * 1_000)`, `refurbAssigns` = the assignments of the visiting loop -/
-def timingData (content : Str) (totalMs : Int) (refurbAssigns : List (Str × Int)) : Except TErr Stats :=
-  match parseLines (pySplitlines content) with
+    `int(mypy_total_time_spent * 1_000)`, `refurbAssigns` = the assignments of the visiting loop; `rs` = the
+    shape of the line parse (see `parseLineOf`) -/
+def timingData (rs : Bool) (content : Str) (totalMs : Int) (refurbAssigns : List (Str × Int)) : Except TErr Stats :=
+  match parseLines rs (pySplitlines content) with
   | .error e => .error e
   | .ok assigns =>
     .ok { total := totalMs, mypy := byValueDesc (dictOf assigns), refurb := byValueDesc (dictOf refurbAssigns) }
@@ -360,16 +391,20 @@ def renderFields : List (Str × V) → Str
 def renderObj (fields : List (Str × V)) : Str := '{' :: (renderFields fields ++ ['}'])
 
 /-- the text written to FILE, or the `ValueError` that escapes `output_timing_stats` -/
-def timingJson (content : Str) (totalMs : Int) (refurbAssigns : List (Str × Int)) : Except TErr Str :=
-  match timingData content totalMs refurbAssigns with
+def timingJson (rs : Bool) (content : Str) (totalMs : Int) (refurbAssigns : List (Str × Int)) : Except TErr Str :=
+  match timingData rs content totalMs refurbAssigns with
   | .error e => .error e
   | .ok st => .ok (renderObj st.data)
 
+/-- …for the code as it is in the working tree (Generated/LifecycleShape.lean) -/
+def timingDataNow (content : Str) (totalMs : Int) (refurbAssigns : List (Str × Int)) : Except TErr Stats :=
+  timingData Generated.timingRsplit content totalMs refurbAssigns
+
 /-- the outcome of `output_timing_stats` as a function of what it finds on disk: ties Part B to Part A -/
-def otsOf (tempReadable : Bool) (content : Str) (statsWritable : Bool) : Ots :=
+def otsOf (rs : Bool) (tempReadable : Bool) (content : Str) (statsWritable : Bool) : Ots :=
   if !tempReadable then .readError
   else
-    match parseLines (pySplitlines content) with
+    match parseLines rs (pySplitlines content) with
     | .error _ => .valueError
     | .ok _ => if statsWritable then .ok else .writeError
 
